@@ -125,6 +125,20 @@ func removeEmptyDirs(fs afero.Fs, root, dir string) {
 	}
 }
 
+// removeNewEmptyDirs cleans up after a MkdirAll(dir) that failed half-way: the
+// leading directories it did create are removed again if they are empty, so
+// that a refused upload leaves no directory behind that listings would report
+// as a common prefix.
+func removeNewEmptyDirs(fs afero.Fs, root, dir string) {
+	for dir != "." && dir != "/" && dir != "" {
+		if info, err := fs.Stat(filepath.FromSlash(path.Join(root, dir))); err == nil && info.IsDir() {
+			removeEmptyDirs(fs, root, dir)
+			return
+		}
+		dir = path.Dir(dir)
+	}
+}
+
 // removeAll removes name and everything beneath it by walking the tree rather
 // than delegating to Fs.RemoveAll: afero.MemMapFs.RemoveAll removes every
 // entry whose path merely starts with name, so removing "bucket" would also
